@@ -28,6 +28,7 @@ type Options struct {
 	SampleEvery   int
 	Deadline      time.Time
 	StopOnViolation bool
+	ForkSites       bool
 	Params          map[string]int
 	Seed            int
 }
@@ -103,6 +104,7 @@ func (m *Machine) RunPath(entry *ssa.Function, item WorkItem, solver *sym.Solver
 		m.CallsByFn = map[string]int64{}
 	}
 	m.objs = nil
+	m.ForkSites = opt.ForkSites
 	m.Params = opt.Params
 	m.MapOrderSymbolic = false
 	m.MapDeviationBudget = 0
